@@ -30,7 +30,8 @@ func runC03(env *lib.Env, rep *lib.Report) {
 		d, suffix = 3, 2
 		seeds = append(seeds, "t1x8+t2t3", "t1x30", "t1x8+t2t3-crashed", "catalog-split")
 	}
-	alpha := alphaOpt{Tables: []string{"t1", "t2"}, Inserts: []int{1, 4, 9}, Updates: true, Deletes: true}
+	// (the refused INSERT only ever precedes the statement that is cut: it uses up a row id without a log record)
+	alpha := alphaOpt{Tables: []string{"t1", "t2"}, Inserts: []int{1, 4, 9}, Updates: true, Deletes: true, FailingInsert: true}
 	sfx := alphaOpt{Tables: []string{"t1", "t2"}, Inserts: []int{1, 9}}
 	if env.Thorough() {
 		sfx = alpha
@@ -83,7 +84,7 @@ func c03Body(cfgs []c03Cfg, known map[string]lib.KnownEntry) lib.Body {
 		// the statement whose log append is interrupted (DML only)
 		var dml []stmt
 		for _, s := range w.alphabet(h.Alpha) {
-			if s.Kind != "create" {
+			if s.Kind != "create" && !s.MustFail {
 				dml = append(dml, s)
 			}
 		}
